@@ -6,7 +6,8 @@ import F1Verif.Generated.Facts
 import F1Verif.Expected
 namespace F1.Props.FactsC13
 
-theorem fact_api_WithJitter : F1.Generated.skel_api_WithJitter = F1.Expected.skel_api_WithJitter := by rfl
+-- (api_WithJitter: re-proved semantically on the regenerated MiniGo programs, see Props/Refine*.lean)
+
 theorem fact_constant_Calculate : F1.Generated.skel_constant_Calculate = F1.Expected.skel_constant_Calculate := by rfl
 theorem fact_staged_Calculate : F1.Generated.skel_staged_Calculate = F1.Expected.skel_staged_Calculate := by rfl
 theorem fact_ramp_Calculate : F1.Generated.skel_ramp_Calculate = F1.Expected.skel_ramp_Calculate := by rfl
